@@ -162,7 +162,16 @@ pub fn ymmd_canonical(y: i64, m: u8, d: u8, fails: &mut Vec<Failure>) {
                     let ry = refyear.map(|_| yt.clone()).unwrap_or("1972".into());
                     let want = if full { format!("{ry}-{m:02}-{d:02}{ann}") } else { format!("{m:02}-{d:02}{ann}") };
                     match catch_unwind(|| md.to_ixdtf_string(show)) {
-                        Ok(t) if t == want => {}
+                        Ok(t) if t == want => {
+                            // ... and the text parses back to the same month-day (canonical reference year; ISO calendar)
+                            if iso && refyear.is_none() {
+                                let t2 = t.clone();
+                                match catch_unwind(move || PlainMonthDay::from_str(&t2)) {
+                                    Ok(Ok(back)) if back == md => {}
+                                    other => fails.push(Failure { what: "PlainMonthDay format/parse".into(), input: format!("{m}-{d} display {show:?}"), expected: format!("{t} parses back"), observed: format!("{:?}", other.map(|x| x.map(|v| v.to_ixdtf_string(DisplayCalendar::Always)))) }),
+                                }
+                            }
+                        }
                         other => fails.push(Failure { what: "PlainMonthDay canonical text".into(), input: format!("{m}-{d} reference year {refyear:?} calendar {id} display {show:?}"), expected: want, observed: format!("{other:?}") }),
                     }
                 }
